@@ -135,6 +135,11 @@ def generate(check, rng, tier, run_index):
             'seed': rng.below(1 << 30), 'mode': mode, 'ops': ops}
     if fmt == 'nc' and rng.chance(0.4):
         case['nc_backend'] = 'scipy'
+    alias = {'nc': ['.nc', '.netcdf', '.ncdf'], 'mdcrd': ['.mdcrd', '.crd'], 'h5': ['.h5', '.hdf5'], 'xyz': ['.xyz', '.xyz.gz'], 'pdb': ['.pdb', '.pdb.gz']}
+    if fmt in alias and rng.chance(0.4):
+        case['ext'] = rng.choice(alias[fmt])
+    if rng.chance(0.4):
+        case['origin'] = rng.choice([[-3.0, -2.0, -5.0], [40.0, -20.0, 7.0], [-0.4, 0.0, -1.2]])
     if tier == 'thorough' and CAPS[fmt]['live'] and rng.chance(0.04):
         case['real_kill_at'] = rng.below(len(ops))
     return case
@@ -244,7 +249,7 @@ def frames_match(t, src, ids, with_cell, with_time, fmt):
     if t.xyz.shape != ref.shape:
         return 'shape', {'expected': list(ref.shape), 'got': list(t.xyz.shape)}
     if not np.allclose(t.xyz, ref, atol=XTOL, rtol=0):
-        got = [int(x) for x in np.round((t.xyz[:, 0, 0].astype(np.float64)) / 0.1 - 1.0)]
+        got = [int(x) for x in np.round((t.xyz[:, 0, 0].astype(np.float64) - src.get('ox', 0.0)) / 0.1 - 1.0)]
         if got != list(ids):
             return 'frames', {'expected_ids': list(ids), 'got_ids': got}
         return 'xyz', {'max_abs_err': float(np.nanmax(np.abs(t.xyz - ref)))}
@@ -323,18 +328,20 @@ def _execute(check, case, workdir):
     with_time = case['with_time']
     total = sum(o.get('k', 0) for o in case['ops']) + 2
     cellkind = case['cell'] or 'tric'
-    xyz, tm, L, A = fmts.tagged_arrays(total, n_atoms + 1, cellkind, case['seed'])
+    origin = tuple(case.get('origin', (0.0, 0.0, 0.0)))
+    xyz, tm, L, A = fmts.tagged_arrays(total, n_atoms + 1, cellkind, case['seed'], origin)
     if caps['cell'] == 'opt-ortho' or fmt == 'mdcrd':
         A = np.full_like(A, 90.0)
     if fmt == 'pdb':
         # a PDB file holds one CRYST1 record: the cell cannot vary per frame (carrier limit, not judged here)
         L = np.repeat(L[:1], len(L), axis=0)
         A = np.repeat(A[:1], len(A), axis=0)
-    src = {'xyz': xyz[:, :n_atoms], 'xyz_plus': xyz, 'time': tm.astype(np.float64), 'L': L, 'A': A}
+    src = {'xyz': xyz[:, :n_atoms], 'xyz_plus': xyz, 'time': tm.astype(np.float64), 'L': L, 'A': A, 'ox': origin[0]}
     top = fmts.make_topology(n_atoms)
     top_plus = fmts.make_topology(n_atoms + 1)
     top_minus = fmts.make_topology(n_atoms - 1) if n_atoms > 1 else None
-    path = os.path.join(workdir, 'out' + F['ext'])
+    EXT = case.get('ext', F['ext'])
+    path = os.path.join(workdir, 'out' + EXT)
     mode = case['mode']
     auto_flush = caps['flush'] and mode in ('flushed', 'faultfree')
     sig_schema = '%s%s' % ('cell' if with_cell else 'nocell', ',time' if with_time else ',notime')
@@ -355,7 +362,7 @@ def _execute(check, case, workdir):
         """simulated process kill at this boundary"""
         nonlocal n_boundaries
         n_boundaries += 1
-        img = os.path.join(workdir, 'img' + F['ext'])
+        img = os.path.join(workdir, 'img' + EXT)
         if not snapshot(path, img):
             res.probe('crash_before_file_exists')
             return
@@ -518,7 +525,7 @@ def _execute(check, case, workdir):
     if bad is not None:
         viol('final', bad[0], dict(bad[1], accepted=len(accepted)), final_step, tag)
         return res
-    sib = os.path.join(workdir, 'oneshot' + F['ext'])
+    sib = os.path.join(workdir, 'oneshot' + EXT)
     w2 = Writer(md, fmt, sib, top, n_atoms)
     try:
         x, t_, l_, a_ = _chunk(src, accepted, with_cell, with_time)
@@ -555,7 +562,7 @@ def _real_kill_crosscheck(res, check, case, workdir, md, src, top, stepno, accep
             os.kill(os.getpid(), signal.SIGKILL)
     _, status = os.waitpid(pid, 0)
     res.fault('real_sigkill_child')
-    p = os.path.join(sub, 'out' + F['ext'])
+    p = os.path.join(sub, 'out' + case.get('ext', F['ext']))
     if flushed_upto == 0 or not os.path.exists(p):
         return
     pending = len(accepted) - flushed_upto
@@ -581,12 +588,12 @@ def _child_history(case, workdir):
     with_cell = case['cell'] is not None
     with_time = case['with_time']
     total = sum(o.get('k', 0) for o in case['ops']) + 2
-    xyz, tm, L, A = fmts.tagged_arrays(total, n_atoms + 1, case['cell'] or 'tric', case['seed'])
+    xyz, tm, L, A = fmts.tagged_arrays(total, n_atoms + 1, case['cell'] or 'tric', case['seed'], tuple(case.get('origin', (0.0, 0.0, 0.0))))
     if caps['cell'] == 'opt-ortho' or fmt == 'mdcrd':
         A = np.full_like(A, 90.0)
     src = {'xyz': xyz[:, :n_atoms], 'xyz_plus': xyz, 'time': tm.astype(np.float64), 'L': L, 'A': A}
     top = fmts.make_topology(n_atoms)
-    w = Writer(md, fmt, os.path.join(workdir, 'out' + F['ext']), top, n_atoms)
+    w = Writer(md, fmt, os.path.join(workdir, 'out' + case.get('ext', F['ext'])), top, n_atoms)
     auto_flush = caps['flush'] and case['mode'] in ('flushed', 'faultfree')
     cursor = 0
     n_acc = 0
